@@ -8,6 +8,10 @@ def parseNames (s : String) : Option (List Str) := parseList s
 
 def judgeConfig (fields : List String) : String :=
   match fields with
+  | ["watch", res] =>
+    -- the running instance's change callback has read the configuration that was saved last
+    if res = "ok" then "ok watch 1" else if res = "no-events" then "ok watch-unavailable 0"
+    else s!"ok watch 1 TRIP differs_from_fresh:watch:{res}"
   | [_i, defect, sok, comp, caches, ups, locs, srvs, "=>", cls, probes, rt] =>
     let locsP : Option (List Loc) := if locs = "-" then some [] else
       (locs.splitOn ";").mapM fun e => match e.splitOn "|" with
